@@ -5,7 +5,7 @@ from . import client_common as CC
 
 
 def run(ctx):
-    pr, stats, validated, dis, distinct, samples, exh = CC.run_prop(ctx, "C09", n_quick=150, n_thorough=4000)
+    pr, stats, validated, dis, distinct, samples, exh = CC.run_prop(ctx, "C09", n_quick=400, n_thorough=4000)
     return CC.finish(ctx, "C09", pr, stats, validated, dis, distinct, samples, exh,
                      "Direct oracle for C09: every completed call returned kind:token of the answer the reference server addressed "
                      "(req_msg_id) to the frame that carried this call's token; a declared Vector<> arrives as the typed slice; the process "
